@@ -25,7 +25,7 @@ def run(prog: Program, rep: Report, tier: str):
              "'k not in <cache>' holds for the same key k = the index parameter itself; on those paths the loaded value is "
              "stored under that key before the function returns, and is the value returned; on all other paths the value "
              "returned is <cache>[k] for the same key; nothing else is returned")
-    rep.rule("G8.dispose-clears", "dispose() empties the cache on every path (samples are loaded again afterwards)")
+    rep.rule("G8.dispose-clears", "dispose() empties the cache container in place (<cache>.clear()) on every path and never re-binds the attribute: the container is shared by reference / proxy with every reader")
     rep.rule("G8.transform-after-cache", "CachedDataset.__getitem__(idx) obtains the sample from self._cached_getitem(idx) with "
              "its own index, applies self.transform to it exactly when a transform is set, returns the result, and stores "
              "nothing (the transformed value never enters the cache); __len__ is len(self.dataset)")
@@ -133,8 +133,12 @@ def run(prog: Program, rep: Report, tier: str):
             da = fa_of(prog, d)
             rep.analysed_add("functions", f"{d.module.relpath}:{d.qualname}")
             clears = {n for n, c in da.calls_named("clear") if da.sym.term(c.func.value, n) == cache}
-            clears |= {n for n, var, val in da.stores() if var == f"{da.self_name}.{cache_attr}" and val is not None
-                       and isinstance(val, (ast.Dict, ast.Call))}
+            rebinds = [n for n, var, val in da.stores() if var == f"{da.self_name}.{cache_attr}"]
+            if rebinds:
+                rep.bad("G8.dispose-clears", d, "rebind", f"dispose() binds self.{cache_attr} to a new container instead of "
+                        f"emptying the shared one in place: every other holder of the cache (reader processes that received "
+                        f"the proxy earlier) keeps serving the entries from before the clear", line=da.line(rebinds[0]),
+                        clause="C19.2")
             rep.decide(bool(clears) and da.cfg.must_pass(clears), "G8.dispose-clears", d, "clear",
                        f"self.{cache_attr} is emptied on every path", f"dispose() does not empty self.{cache_attr} on every "
                        f"path", clause="C19.2")
